@@ -293,10 +293,7 @@ func c16Check(inputs []any, excludeKnown bool) {
 	// migrate workflow: base + bkld(base, input) evaluates to input; pairs
 	// (base, input) inside a C15 known-finding region of bkld are skipped
 	for i, in := range inputs {
-		if r := vDiffRegion(want, in); r != "" && excludeKnown {
-			vCover("known." + r)
-			continue
-		}
+		// (pairs inside bkld's former regions C15-R1..R4 are no longer skipped)
 		layer, derr := diffDoc(bkl.NewDocumentWithData("t", vCopy(in)), bkl.NewDocumentWithData("b", vCopy(base)))
 		vAssert("C16.differr", derr == nil)
 		got, aerr := c16Apply(vCopy(base), layer)
